@@ -187,6 +187,45 @@ pub async fn run_case(backend: &str, seed: u64, rep: &mut Report, ops: &mut Vec<
                     Err(e) => rep.spec_fail(&format!("c16-report-error-{backend}"), json!({"case_seed": seed, "table": table, "column": col}), &e),
                 }
             }
+            // removal: a folder's log (all its event rows), then put back; at the very end a folder's row (its vault)
+            for s in folders.iter() {
+                let fid = *s.id();
+                let fid_s = fid.to_string();
+                let saved: Result<Vec<(i64, String, Vec<u8>, Vec<u8>)>, _> = client.conn_mut(move |conn| {
+                    let row: i64 = conn.query_row("SELECT folder_id FROM folders WHERE identifier = ?1", [&fid_s], |r| r.get(0))?;
+                    let rows: Vec<(i64, String, Vec<u8>, Vec<u8>)> = { let mut st = conn.prepare("SELECT folder_id, created_at, commit_hash, event FROM folder_events WHERE folder_id = ?1 ORDER BY event_id ASC")?;
+                        let it = st.query_map([row], |r| Ok((r.get(0)?, r.get(1)?, r.get(2)?, r.get(3)?)))?; it.filter_map(|x| x.ok()).collect() };
+                    conn.execute("DELETE FROM folder_events WHERE folder_id = ?1", [row])?;
+                    Ok(rows)
+                }).await;
+                let Ok(saved) = saved else { rep.notes.push("db log removal: could not read the folder's events".into()); continue };
+                let rr = run_report(&target, &account_id, folders.clone()).await;
+                let n_saved = saved.len();
+                let _ = client.conn_mut(move |conn| { for (f, t, c, e) in saved { conn.execute("INSERT INTO folder_events (folder_id, created_at, commit_hash, event) VALUES (?1, ?2, ?3, ?4)", (f, t, c, e))?; } Ok(()) }).await;
+                rep.case(&format!("{backend}:{seed}:{fid}:log-removed"), true);
+                if let Ok(f) = rr {
+                    let n = f.get(&fid).copied().unwrap_or(0);
+                    rep.count(&format!("{backend}:log-removed:{}", if n > 0 { "flagged" } else { "missed" }));
+                    if n == 0 { rep.spec_fail(&format!("c16-removal-not-reported-log-removed-{backend}"), json!({"case_seed": seed, "backend": backend, "folder": fid.to_string(), "events": n_saved}), "a folder whose event rows were all removed is not reported"); }
+                }
+                // the restored log must be clean again (the harness put back what it took)
+                if let Ok(f) = run_report(&target, &account_id, folders.clone()).await {
+                    if f.get(&fid).copied().unwrap_or(0) > 0 { rep.notes.push(format!("db log removal: restored log of {fid} reported (harness)")); }
+                }
+            }
+            if let Some(s) = folders.last() {
+                let fid = *s.id();
+                let fid_s = fid.to_string();
+                let r = client.conn_mut(move |conn| { conn.execute("DELETE FROM folders WHERE identifier = ?1", [&fid_s])?; Ok(()) }).await;
+                if r.is_ok() {
+                    rep.case(&format!("{backend}:{seed}:{fid}:vault-removed"), true);
+                    if let Ok(f) = run_report(&target, &account_id, folders.clone()).await {
+                        let n = f.get(&fid).copied().unwrap_or(0);
+                        rep.count(&format!("{backend}:vault-removed:{}", if n > 0 { "flagged" } else { "missed" }));
+                        if n == 0 { rep.spec_fail(&format!("c16-removal-not-reported-vault-removed-{backend}"), json!({"case_seed": seed, "backend": backend, "folder": fid.to_string()}), "a folder whose row was removed is not reported"); }
+                    }
+                }
+            }
         }
     }
     if seed % 10 == 0 { rep.sample(json!({"backend": backend, "seed": seed, "folders": folders.len()})); }
